@@ -55,6 +55,22 @@ func c17URL(family, i int) string {
 	return ""
 }
 
+// c17N chooses the pager size: every N up to maxN, plus the two-digit sizes 10
+// and 12 when maxN is smaller (so the quick tier reaches two-digit labels).
+func c17N(maxN int) int {
+	if maxN >= 12 {
+		return 2 + vx.Choose("N", maxN-1)
+	}
+	n := vx.Choose("N", maxN+1)
+	if n == maxN-1 {
+		return 10
+	}
+	if n == maxN {
+		return 12
+	}
+	return 2 + n
+}
+
 // HarnessC17PageNumber: the conventional numbered pager 1..N with the current
 // page k as plain text, every N in 2..max, every k, URL families (query
 // parameter, path component, file-name suffix, second query parameter) and
@@ -63,9 +79,10 @@ func c17URL(family, i int) string {
 // (empty for k = 1).
 func HarnessC17PageNumber() {
 	maxN := vx.Param("maxn", 12)
-	N := 2 + vx.Choose("N", maxN-1)
+	N := c17N(maxN)
 	k := 1 + vx.Choose("k", N)
 	family := vx.Choose("family", vx.Param("families", 7))
+	deco := vx.Choose("linkdeco", 3) // decoration of the link labels: 7, [7], (7)
 	sep := []string{" ", " | ", "", "\n"}[vx.Choose("sep", 4)]
 	wrap := vx.Choose("wrap", 3)
 	cur := vx.Choose("cur", 4)
@@ -76,7 +93,7 @@ func HarnessC17PageNumber() {
 		if i == k {
 			item = []string{label, "<span class=\"current\">" + label + "</span>", "<b>" + label + "</b>", "<strong>[" + label + "]</strong>"}[cur]
 		} else {
-			item = `<a href="` + c17URL(family, i) + `">` + label + `</a>`
+			item = `<a href="` + c17URL(family, i) + `">` + []string{label, "[" + label + "]", "(" + label + ")"}[deco] + `</a>`
 		}
 		switch wrap {
 		case 1:
@@ -112,14 +129,22 @@ func HarnessC17PageNumber() {
 // k+1 / k-1 of the pattern are returned by the prev/next algorithm.
 func HarnessC17PrevNext() {
 	maxN := vx.Param("maxn", 12)
-	N := 2 + vx.Choose("N", maxN-1)
+	N := c17N(maxN)
 	k := 1 + vx.Choose("k", N)
 	family := vx.Choose("family", vx.Param("families", 7))
+	acls := []string{"", ` class="post-page-numbers"`, ` class="next page-numbers"`, ` id="nav-link"`}[vx.Choose("anchorclass", 4)]
+	if strings.Contains(acls, "post-page-numbers") && family == 5 {
+		acls = "" // a penalised class on top of a penalised slug is not a conventional pager
+	}
+	// WordPress marks its pager anchors with a class that contains a word the
+	// heuristics penalise; such pagers are conventional only inside a container
+	// that identifies itself as pagination
+	forcePagination := strings.Contains(acls, "post-page-numbers")
 	nextLabel := []string{"Next", "next page", "Next »"}[vx.Choose("nextlabel", 3)]
 	prevLabel := []string{"Prev", "Previous", "« previous page"}[vx.Choose("prevlabel", 3)]
 	pager := ""
 	if k > 1 {
-		pager += `<a href="` + c17URL(family, k-1) + `">` + prevLabel + `</a> `
+		pager += `<a href="` + c17URL(family, k-1) + `"` + strings.Replace(acls, "next ", "prev ", 1) + `>` + prevLabel + `</a> `
 	}
 	if vx.Choose("numbers", 2) == 1 {
 		for i := 1; i <= N; i++ {
@@ -131,9 +156,12 @@ func HarnessC17PrevNext() {
 		}
 	}
 	if k < N {
-		pager += `<a href="` + c17URL(family, k+1) + `">` + nextLabel + `</a>`
+		pager += `<a href="` + c17URL(family, k+1) + `"` + acls + `>` + nextLabel + `</a>`
 	}
 	cls := []string{"pagination", "links"}[vx.Choose("divclass", 2)]
+	if forcePagination {
+		cls = "pagination"
+	}
 	doc := vx.ParseHTML(`<html><body><div><p>Some words of the article are here.</p></div><div class="` + cls + `">` + pager + `</div></body></html>`)
 	pageURL, _ := nurl.Parse(c17URL(family, k))
 	info := NewPrevNextFinder(nil).FindPagination(doc, pageURL)
